@@ -283,6 +283,17 @@ def gc2(F, R):
     R.floor("GC2", "removal sites in data()", len(rem), 1, body.where())
     tag_writes = [e for e in evs if e.kind == "tag_write"]
     for e in rem:
+        hs = loop_header_site(e)
+        if hs is not None and e.body is body:
+            try:
+                br = body.early_exits(hs[0])
+            except Exception:
+                br = []
+            if br:
+                R.bad("GC2", "GC2/Sodg::data/destroy-loop-stops-early", e.where(),
+                      "the loop that removes the members of a dying group can be left before the last member (break / early return): "
+                      "part of the group survives its last unread datum")
+    for e in rem:
         k = vkey(e.x)
         detail = {"target": show(e.x, e.body), "guards": show_facts(e.facts, e.body)}
         # (shape) target is a member of the reader's group list
@@ -961,6 +972,49 @@ def gc6(F, R, parts="abcd"):
                 R.bad("GC6", "GC6/%s/clear" % fk, e.where(), "member list cleared outside data()")
             if e.kind in ("sodg_field_write",) and e.field in ("Sodg::branches", "Sodg::stores") and fk != "Sodg::empty":
                 R.bad("GC6", "GC6/%s/%s-replaced" % (fk, e.field.split("::")[1]), e.where(), "group table replaced")
+
+
+def limits(F, R):
+    """LM: the documented limits are the ones compiled in — the two group tables have 16 slots (2 reserved + 14 groups), a
+    member list holds 16 vertices"""
+    import re as _re
+    ctor = F.fn("Sodg", "empty")
+    if ctor is None:
+        R.missing("LM1", "Sodg::empty")
+    else:
+        n = 0
+        for site, kind, s in ctor.sites():
+            if kind == "stmt" and s["k"] == "assign" and s["rv"]["k"] == "aggregate" and s["rv"].get("adt") == "Sodg":
+                fs = dict(ctor.expr_rvalue(s["rv"], site)[3])
+                for fname in ("stores", "branches"):
+                    v = strip_load(fs.get(fname, ("?",)))
+                    n += 1
+                    cap = strip_load(v[2][0]) if v[0] == "call" and v[1].split("::")[-1].startswith("with_capacity") and v[2] else None
+                    if cap == ("const", 16):
+                        R.ok("LM1", ctor.where(site), "the `%s` table has 16 slots: 2 reserved and 14 for groups" % fname)
+                    else:
+                        R.bad("LM1", "LM1/Sodg::empty/%s-table-size" % fname, ctor.where(site),
+                              "the `%s` table is not created with 16 slots (2 reserved + the documented 14 groups alive at once): %s"
+                              % (fname, show(cap, ctor) if cap else show(v, ctor)[:120]))
+        R.floor("LM1", "group tables sized in the constructor", n, 2, ctor.where())
+    sodg = F.adts.get("Sodg")
+    ty = None
+    if sodg is not None:
+        for f in sodg["variants"][0]["fields"]:
+            if f["name"] == "branches":
+                ty = f["ty"]
+    m = _re.search(r"Stack<\s*usize\s*,\s*([\w:]+)\s*>", ty or "")
+    if not m:
+        R.missing("LM2", "member-list type microstack::Stack<usize, K> of Sodg::branches")
+    else:
+        k = m.group(1).split("::")[-1]
+        val = int(k) if k.isdigit() else F.consts.get(k)
+        if val == 16:
+            R.ok("LM2", sodg["span"], "a group's member list holds 16 vertices (%s)" % m.group(0))
+        else:
+            R.bad("LM2", "LM2/Sodg::branches/member-list-size", sodg["span"],
+                  "a group's member list does not hold exactly the documented 16 vertices (%s = %s): a 16th member panics, or a 17th is "
+                  "accepted" % (m.group(0), val))
 
 
 def loop_header_site(e):
